@@ -3,7 +3,7 @@
 From Coq Require Import List Bool.
 From Coq Require Import NArith Arith.
 From Carquet Require Import Base.Res Gen.Consts_gen Gen.Dispatch_gen Gen.Intrinsics_gen Simd.DispatchModel Simd.DispatchProofs.
-From Carquet Require Import Simd.Vec Simd.ScalarKernels Simd.SseKernels Simd.Avx2Kernels Simd.Avx512Kernels Simd.BssProofs Simd.SeqProofs Simd.MemProofs Simd.LevelProofs Simd.PackProofs Simd.PsumProofs Simd.UnpackProofs Simd.ScanProofs Simd.CrcProofs.
+From Carquet Require Import Simd.Vec Simd.ScalarKernels Simd.SseKernels Simd.Avx2Kernels Simd.Avx512Kernels Simd.BssProofs Simd.SeqProofs Simd.MemProofs Simd.LevelProofs Simd.PackProofs Simd.PsumProofs Simd.UnpackProofs Simd.ScanProofs Simd.CrcProofs Simd.McopyProofs.
 Import ListNotations.
 
 (** Dispatcher: for EVERY capability set (any list of features) and every slot of the dispatch table
@@ -307,3 +307,10 @@ Theorem sse_crc32c_kernel_eq_scalar : forall crc data,
   bytes_ok data -> sse_crc32c crc data = Ok (scalar_crc32c Simd_crc32c_table crc data).
 Proof. exact sse_crc32c_eq_scalar. Qed.
 Print Assumptions sse_crc32c_kernel_eq_scalar.
+
+(** match copy (LZ77 match inside one buffer: dst = buf + d, src = dst - offset; domain 1 <= offset <= d) *)
+Theorem sse_match_copy_kernel_eq_scalar : forall buf d len offset,
+  1 <= offset <= d -> d + len <= length buf -> bytes_ok buf ->
+  exists out, sse_match_copy buf d len offset = Ok out /\ scalar_match_copy buf d len offset = Ok out.
+Proof. exact sse_match_copy_eq_scalar. Qed.
+Print Assumptions sse_match_copy_kernel_eq_scalar.
